@@ -143,24 +143,33 @@ def run_heap_family(prop, tier, seed, configs, scratch, assumptions, level_note)
     return cov, violations
 
 
-def run_trace_validation(prop, tier, seed, scratch, cov, violations, derived_modes=(0,)):
-    """R3: random programs on the real library (large containers) validated by TLC against Heap.tla (spec/HeapTrace.tla)."""
+def run_trace_validation(prop, tier, seed, scratch, cov, violations, stages=(("std", 0),)):
+    """R3: random programs on the real library (large containers) validated by TLC against Heap.tla (spec/HeapTrace.tla).
+    Stage kinds: std = random programs incl. lists of several hundred elements; scen = scripted scenarios (Equals on lists of
+    ~2050 elements, nesting chains of depth 140/260); bigobj = objects with up to 80 fields, bulk Set/Unset/Pluck."""
     vh = build_harness(scratch)
     q = tier == "quick"
-    for dv in derived_modes:
-        trace = scratch.path("heap-trace-%d.ndjson" % dv)
-        summ = scratch.path("heap-trace-%d.json" % dv)
-        args = ["drive", "-trace", trace, "-seed", str(seed), "-programs", "30" if q else "400", "-steps", "80" if q else "150",
-                "-bigprograms", "4" if q else "40", "-bigsteps", "24" if q else "60", "-nkeys", "4", "-derived", str(dv), "-out", summ]
-        rc, so, se, wall = run_vh(vh, args, 1800)
+    for kind, dv in stages:
+        tag = "%s-d%d" % (kind, dv)
+        trace = scratch.path("heap-trace-%s.ndjson" % tag)
+        summ = scratch.path("heap-trace-%s.json" % tag)
+        nkeys = 4
+        if kind == "std":
+            args = ["-programs", "30" if q else "400", "-steps", "80" if q else "150", "-bigprograms", "4" if q else "40", "-bigsteps", "24" if q else "60"]
+        elif kind == "scen":
+            args = ["-programs", "2", "-steps", "30", "-bigprograms", "0", "-scenarios"]
+        else:
+            nkeys = 80
+            args = ["-programs", "6" if q else "60", "-steps", "60" if q else "120", "-bigprograms", "0", "-bigobj"]
+        rc, so, se, wall = run_vh(vh, ["drive", "-trace", trace, "-seed", str(seed), "-nkeys", str(nkeys), "-derived", str(dv), "-out", summ] + args, 1800)
         s = json.load(open(summ))
         mod = "---- MODULE MC ----\nEXTENDS HeapTrace\nmcLits == <<>>\n====\n"
-        cfg = ('CONSTANTS\n NKeys = 4\n Lits <- mcLits\n TraceFile = "%s"\nSPECIFICATION TraceSpec\nINVARIANT TraceInv\nCONSTRAINT Mark\n'
-               'POSTCONDITION TraceAccepted\nCHECK_DEADLOCK FALSE\n' % trace)
-        res = run_tlc(scratch, "%s-trace-%d" % (prop, dv), mod, cfg, ["Heap.tla", "HeapTrace.tla"], 1800, workers=1, heap="8g")
+        cfg = ('CONSTANTS\n NKeys = %d\n Lits <- mcLits\n TraceFile = "%s"\nSPECIFICATION TraceSpec\n%sCONSTRAINT Mark\n'
+               'POSTCONDITION TraceAccepted\nCHECK_DEADLOCK FALSE\n' % (nkeys, trace, "" if kind == "scen" else "INVARIANT TraceInv\n"))
+        res = run_tlc(scratch, "%s-trace-%s" % (prop, tag), mod, cfg, ["Heap.tla", "HeapTrace.tla"], 1800, workers=1, heap="8g")
         cov["states"] += res.get("states", 0)
         cov["transitions"] += res.get("transitions", 0)
-        entry = dict(name="%s-trace-derived%d" % (prop, dv), programs=s["programs"], events=s["events"], max_container_sizes=s["max_container_sizes"][-5:],
+        entry = dict(name="%s-trace-%s" % (prop, tag), kind=kind, derived=dv, programs=s["programs"], events=s["events"], max_container_sizes=s["max_container_sizes"][-5:],
                      alien_values=s["alien_values"], tlc_wall_s=round(res["wall_s"], 1), accepted=bool(res["ok"]))
         cov.setdefault("trace_validation", []).append(entry)
         internal = [x for x in ("StackOverflowError", "OutOfMemoryError", "Parsing or semantic analysis failed", "java.lang.") if x in res["tail"]]
@@ -169,39 +178,41 @@ def run_trace_validation(prop, tier, seed, scratch, cov, violations, derived_mod
         if res["ok"]:
             cov["traces_validated_against_impl"] += s["programs"]
             cov["evaluations"] += s["events"]
-            log("[trace] %s derived=%d: %d programs, %d events (largest containers %s) accepted by TLC in %.1fs"
-                % (prop, dv, s["programs"], s["events"], s["max_container_sizes"][-3:], res["wall_s"]))
+            log("[trace] %s %s: %d programs, %d events (largest containers %s) accepted by TLC in %.1fs"
+                % (prop, tag, s["programs"], s["events"], s["max_container_sizes"][-3:], res["wall_s"]))
         else:
             # locate the first unexplained event: the high-water mark is the number of states TLC generated
             first = res.get("states", 0)
             lines = open(trace).read().split("\n")
             bad = lines[first - 1] if 0 < first <= len(lines) else ""
-            # the program the event belongs to
             start = first - 1
             while start > 0 and '"reset"' not in lines[start]:
                 start -= 1
             os.makedirs(REPLAYS, exist_ok=True)
-            keep = os.path.join(REPLAYS, "%s-trace-d%d-%d.ndjson" % (prop, dv, seed))
+            keep = os.path.join(REPLAYS, "%s-trace-%s-%d.ndjson" % (prop, tag, seed))
             with open(keep, "w") as f:
                 f.write("\n".join(lines[start:first]) + "\n")
             try:
                 o = json.loads(bad).get("o")
+                rv = json.loads(bad).get("ret")
             except Exception:
-                o = None
+                o, rv = None, None
             log("[trace] rejected line: %s" % bad[:400])
-            violations.append(dict(property=prop, check="trace", config="trace-derived%d" % dv, sig="trace: op=%s rejected by HeapTrace.tla" % (o[0] if o else "?"),
-                                   message="event %d of the recorded execution is not a step Heap.tla allows (operation %s, derived=%d); the program up to and including "
-                                           "this event is in %s; TLC: %s" % (first, json.dumps(o), dv, keep, res["tail"][-600:].replace("\n", " ")),
-                                   steps_file=keep))
-            log("[trace] %s derived=%d: REJECTED at event %d: %s" % (prop, dv, first, bad[:300]))
-        for fpath in (trace,):
-            try:
-                os.remove(fpath)
-            except OSError:
-                pass
+            violations.append(dict(property=prop, check="trace", config="trace-%s" % tag, sig="trace: op=%s rejected by HeapTrace.tla" % (o[0] if o else "?"),
+                                   message="event %d of the recorded execution is not a step Heap.tla allows (operation %s returned %s, stage %s, derived=%d); the program up to and "
+                                           "including this event is in %s" % (first, json.dumps(o)[:300], json.dumps(rv), kind, dv, keep),
+                                   steps_file=keep, nkeys=nkeys))
+            log("[trace] %s %s: REJECTED at event %d" % (prop, tag, first))
+        try:
+            os.remove(trace)
+        except OSError:
+            pass
+        if violations:
+            return
 
 
-TRACE_PROPS = {"C05": (0,), "C06": (0,), "C08": (0,), "C09": (0,), "C11": (0,), "C19": (1, 2)}
+TRACE_PROPS = {"C05": (("std", 0),), "C06": (("std", 0), ("bigobj", 0)), "C07": (("scen", 0),), "C08": (("std", 0), ("scen", 0)), "C09": (("std", 0),),
+               "C11": (("std", 0),), "C13": (("scen", 0),), "C19": (("std", 1), ("std", 2), ("bigobj", 1))}
 
 # ---------------------------------------------------------------------------------------------
 # Config tables.  Sizes are fitted to measured state counts (see DESIGN.md section 5.0).
